@@ -1,4 +1,112 @@
-(** C13 -- placeholder while the pipeline is being built; replaced by the property theorems. *)
-From TLV Require Import Tl2.Tl2Model.
-Example C13_placeholder : wf2 [] (mkX (fun _ => false) (fun _ _ => false) (fun _ => 0%N)) = true.
-Proof. reflexivity. Qed.
+(** C13 -- TL2 readers tolerate schema evolution and non-minimal encodings.  Property theorems only.
+    [R s x t ze v b] (Tl2/Tl2Relax.v): [b] is an admissible encoding of the object state [v] of type
+    [t] -- defined by recursion on [v], so that every choice below is made independently at every
+    nesting level ("closure under sequences" of re-encodings is built in):
+    either spelling of every size (object size, variant index, element count, string length: the
+    1/3-byte form or the 9-byte form); a non-optional field written although it holds the default;
+    presence blocks written although zero (no trimming), or trimmed; an explicit variant index 0;
+    presence bits and bytes of unknown (newer) fields after the last known field of an object; bytes
+    after the last element of an array; trailing default elements of a fixed tuple cut; any non-zero
+    byte for true. *)
+From TLV Require Import Prim.PrimModel Tl1.Tl1Model Tl1.Tl1Proofs Tl2.Tl2Model Tl2.Tl2Blocks Tl2.Tl2Proofs Tl2.Tl2Relax.
+Open Scope N_scope.
+
+(** every admissible encoding is read as the (normal form of the) value, consuming exactly it *)
+Theorem C13_admissible_reencoding : forall s x, wf2 s x = true ->
+  forall v t b' fuel rest, R s x t false v b' -> (vdepth v <= fuel)%nat ->
+    dec2 fuel s x t (b' ++ rest) = Some (Ok (norm2 s x t false v, rest)).
+Proof. intros s x Hwf v t b' fuel rest H Hd. exact (proj2 (R_dec_all s x Hwf v t false b' H) fuel rest Hd). Qed.
+Print Assumptions C13_admissible_reencoding.
+
+(** what the generated writer produces is admissible ... *)
+Theorem C13_canonical_is_admissible : forall s x, wf2 s x = true ->
+  forall v t b, enc2 s x t false v = Some b -> R s x t false v b.
+Proof.
+  intros s x Hwf v t b H. exact (enc2_R_all s x Hwf v t false b H (enc2_false_nonempty s x v t b H)).
+Qed.
+Print Assumptions C13_canonical_is_admissible.
+
+(** ... hence every admissible re-encoding decodes to the same value as the minimal encoding *)
+Theorem C13_same_value_as_minimal : forall s x, wf2 s x = true ->
+  forall v t b b' fuel rest, enc2 s x t false v = Some b -> R s x t false v b' -> (vdepth v <= fuel)%nat ->
+    dec2 fuel s x t (b' ++ rest) = dec2 fuel s x t (b ++ rest).
+Proof.
+  intros s x Hwf v t b b' fuel rest H H' Hd.
+  rewrite (C13_admissible_reencoding s x Hwf v t b' fuel rest H' Hd).
+  now rewrite (enc2_dec2 s x Hwf v t b fuel rest H Hd).
+Qed.
+Print Assumptions C13_same_value_as_minimal.
+
+(** instance: the size prefix of any object / array may be spelled in the 9-byte form *)
+Theorem C13_any_size_spelling : forall s x, wf2 s x = true ->
+  forall v t b fuel rest, sized_type s x t = true -> enc2 s x t false v = Some b -> (vdepth v <= fuel)%nat ->
+    exists sb body, b = sb ++ body /\ size_enc (lenN body) sb /\
+      dec2 fuel s x t ((hugeStringMarker :: le_bytes 8 (lenN body)) ++ body ++ rest) = dec2 fuel s x t (b ++ rest).
+Proof.
+  intros s x Hwf v t b fuel rest Ht H Hd.
+  destruct (R_sized_swap s x t false v b (C13_canonical_is_admissible s x Hwf v t b H) Ht) as (sb & body & -> & Hs & Hsw).
+  exists sb, body. split; [reflexivity|]. split; [exact Hs|].
+  rewrite app_assoc.
+  apply (C13_same_value_as_minimal s x Hwf v t (sb ++ body) _ fuel rest H); [|exact Hd].
+  apply Hsw. destruct Hs as [Hn _]. split; [exact Hn|now right].
+Qed.
+Print Assumptions C13_any_size_spelling.
+
+(** an object whose declared size exceeds the remaining input is rejected *)
+Theorem C13_oversize_rejected : forall s x t b n r fuel,
+  sized_type s x t = true -> size2_r b = Ok (n, r) -> lenN r < n -> dec2 (S fuel) s x t b = Some Reject.
+Proof. exact oversize_rejected. Qed.
+Print Assumptions C13_oversize_rejected.
+
+(** fields missing at the end of a body are empty; in the extreme, size 0 is the default object *)
+Theorem C13_empty_object_is_default : forall s x t sb rest fuel d,
+  match nth_error s t with
+  | Some (TStruct _ _) => x_alias x t = false
+  | Some (TUnion _) => True
+  | _ => False
+  end ->
+  size_enc 0 sb -> dflt s t = Some d -> dec2 (S fuel) s x t (sb ++ rest) = Some (Ok (d, rest)).
+Proof. exact empty_object_default. Qed.
+Print Assumptions C13_empty_object_is_default.
+
+(** Reader level: after the fields the reader knows, anything may follow in the body -- unknown
+    presence bits in the last known block, further blocks, their payloads ([gcode]'s [gc_done]); and
+    a body may stop after any block when all later fields are absent ([gc_cut]).
+    NOT PROVED (hence _partial): the schema-pair formulation
+      [extends s_old s_new -> dec2 s_old t (enc2 s_new t v) = Ok (project v)]
+    (needs a relation between two schemas and a lemma about [trim]/[chunk8] of appended items);
+    the check exercises it with pairs of freshly generated Go packages and the model under the old schema. *)
+Theorem C13_unknown_tail_ignored_partial :
+  forall rec dfl empt get oi idx fds bitf items nvs body,
+    items_ok rec dfl empt bitf 0 fds items nvs ->
+    get oi = Some (idx, fds, bitf) ->
+    bcode oi (firstn 7 items) (chunk8 (length (skipn 7 items)) (skipn 7 items)) body ->
+    dec_body rec dfl empt get body = Some (Ok (idx, nvs)).
+Proof. intros. eapply body_rt; eauto. Qed.
+Print Assumptions C13_unknown_tail_ignored_partial.
+
+(** Non-vacuity: one value, its minimal encoding and a re-encoding using a 9-byte object size, an
+    explicitly written default field, a second (zero) presence block, an unknown field after the
+    known ones, a 9-byte element count and junk after the last array element. *)
+Definition ex_schema : schema :=
+  [ TPrim PNat; TPrim PString;
+    TArray AVector (mkField 0 true None []);                                  (* 2 *)
+    TStruct 41 [mkField 0 true None []; mkField 1 true None []; mkField 2 true None []] ].   (* 3 *)
+Definition ex_x : tl2x := mkX (fun _ => false) (fun _ _ => false) (fun _ => 0).
+Definition ex_value : value := VStruct [Some (VNum 0); Some (VStr [104]); Some (VArr [VNum 5])].
+Definition ex_minimal : bytes := [9; 12; 1; 104; 5; 1; 5; 0; 0; 0].
+Definition ex_reencoded : bytes :=
+  [255; 35; 0; 0; 0; 0; 0; 0; 0;            (* object size 35, 9-byte form *)
+   30;                                      (* block: fields 0 (explicit default), 1, 2 and an unknown field (bit 4) *)
+   0; 0; 0; 0;                              (* field 0 = 0 written explicitly *)
+   255; 1; 0; 0; 0; 0; 0; 0; 0; 104;        (* string, 9-byte length *)
+   15; 255; 1; 0; 0; 0; 0; 0; 0; 0; 5; 0; 0; 0; 9; 9;   (* vector: size 15, count in 9-byte form, element, junk *)
+   1; 2; 3; 4].                             (* bytes of the unknown field *)
+
+Example C13_ex :
+  wf2 ex_schema ex_x = true /\
+  enc2 ex_schema ex_x 3 false ex_value = Some ex_minimal /\
+  dec2 9 ex_schema ex_x 3 (ex_reencoded ++ [7]) = dec2 9 ex_schema ex_x 3 (ex_minimal ++ [7]) /\
+  dec2 9 ex_schema ex_x 3 (ex_minimal ++ [7]) = Some (Ok (ex_value, [7])) /\
+  dec2 9 ex_schema ex_x 3 [10; 12; 1; 104; 5; 1; 5; 0; 0; 0] = Some Reject.
+Proof. vm_compute. repeat split; reflexivity. Qed.
